@@ -194,6 +194,8 @@ class C05(PropBase):
         if tos:
             to = rng.choice(tos)
             n = policy.chunk_len(rng, len(w.s[to].inbox), init["chunk"])
+            if len(w.s[to].inbox) > 200000:
+                n = rng.choice([len(w.s[to].inbox), len(w.s[to].inbox) // 2 + 1, len(w.s[to].inbox) - 1])  # giant units travel in big pieces
             bk, scr = policy.buf_kind(rng)
             return {"op": "deliver", "to": to, "n": n, "buf": bk, "scribble": scr}
         if rng.random() < 0.3:
@@ -212,7 +214,7 @@ class C05(PropBase):
         x = st.x
         focus = w.init["focus"]
         tos = [n for n in ("c", "s") if self._eligible(st, n)]
-        if focus in ("random_blob", "insert_garbage", "deep_nest", "byz_message") and not tos:
+        if focus in ("random_blob", "insert_garbage", "deep_nest", "byz_message", "giant_pending") and not tos:
             tos = ["c", "s"]
         if not tos:
             return None
@@ -254,7 +256,11 @@ class C05(PropBase):
                     f["msg"] = policy.byz_response(g, mid, rng.choice(policy.RESPONSE_KINDS), notice=False)
                 else:
                     f["msg"] = policy.byz_response(g, mid, "ExtendedResponse", notice=True)
-                if rng.random() < 0.35:
+                if "result" in f["msg"] and rng.random() < 0.3:
+                    # a long diagnostic text with multi-byte characters at every alignment (limits / truncation in error paths)
+                    f["msg"]["result"] = dict(f["msg"]["result"])
+                    f["msg"]["result"]["diag"] = "a" * rng.choice([0, 1, 2, 3]) + rng.choice(["é", "名", "😀", "{node=%s} {0}"]) * rng.choice([300, 480, 512, 700, 1100])
+                elif rng.random() < 0.35:
                     # text fields that are not valid UTF-8 (latin-1 byte, lone continuation byte, truncated sequence)
                     bad = {"hex": rng.choice(["e9", "80", "c3", "f09f98", "41ff42", "eda080"])}
                     msg = f["msg"]
@@ -274,6 +280,10 @@ class C05(PropBase):
                         else:
                             msg[b1] = bad
                         f["bad_utf8"] = True
+            elif kind == "giant_pending":
+                # one unit that announces (and delivers) more pending bytes than common buffer limits: 64 KiB, 256 KiB, 16 MiB
+                f["announce"] = rng.choice([2 ** 31 - 1, 2 ** 28, 2 ** 25])
+                f["send"] = rng.choice([65536 + 9] * 4 + [262144 + 9] * 4 + [2 ** 24 - 9, 2 ** 24 + 9])
             elif kind == "deep_nest":
                 f["depth"] = rng.choice([10, 50, 150, 300, 500, 1000, 2000, 5000])
                 f["shape"] = rng.choice(["not", "andor", "envelope"])
@@ -438,6 +448,12 @@ class C05(PropBase):
                     units[k] = [a, a + len(raw2)]
                     units[k + 1] = [a + len(raw2), d]
                     changed = (a, d)
+            elif kind == "giant_pending":
+                g = b"\x30\x84" + int(f.get("announce", 2 ** 25)).to_bytes(4, "big") + b"\x02\x01\x01" + bytes(int(f.get("send", 65536)))
+                pos = x["appended"][to]
+                se.inbox.extend(g)
+                x["appended"][to] += len(g)
+                changed = (pos, pos + len(g))
             elif kind == "byz_message":
                 try:
                     g = rfc4511.enc_msg(f["msg"])
